@@ -308,21 +308,27 @@ def validatePath (v : View) (o : Oracle) (ps : List Id) : Bool :=
   | some pts =>
     if closedPath ps then o.loopValid pts.dropLast && !o.clockwise pts.dropLast else true
 
-/-- `ValidatePathForArea` on the feature the world hands out for a path id -/
-def validatePathForArea (fv : FV) : Bool :=
-  match fv.f.geom, fv.pts with
-  | .path ps, some pts =>
-    if ps.length < 3 then false else
-    match pts.head?, pts.getLast? with
-    | some a, some b => a == b
-    | _, _ => false
+/-- the check `ValidateArea` makes of one path (after
+`fixes/C13-validate-area-locates-ends-in-world.patch`): at least three points, and the first and the
+last located **through the world being validated** at the same place -/
+def pathClosesIn (loc : Id → Option Pt) (ps : List Id) : Bool :=
+  if ps.length < 3 then false else
+  match ps.head?, ps.getLast? with
+  | some a, some b =>
+    (match loc a, loc b with
+     | some x, some y => x == y
+     | _, _ => false)
   | _, _ => false
+
+/-- what `ValidateArea` requires of the feature found under a path id -/
+def areaPathOK (loc : Id → Option Pt) (g : Option Geom) : Bool :=
+  match g with
+  | some (.path ps) => pathClosesIn loc ps
+  | _ => false
 
 /-- `ValidateArea` -/
 def validateArea (v : View) (paths : List Id) : Bool :=
-  paths.all (fun id => match v.find id with
-    | some fv => validatePathForArea fv
-    | none => false)
+  paths.all (fun id => areaPathOK v.loc ((v.find id).map (·.f.geom)))
 
 /-- `ValidateFeature`: `true` = no error -/
 def validate (v : View) (o : Oracle) (f : Feature) : Bool :=
@@ -500,6 +506,56 @@ def Change.apply (b : View) (o : Oracle) (l : Layer) : Change → Layer × Optio
   | .addFeatures fs => applyFeatures b o l fs
   | .addTags ts => applyAddTags b l ts
   | .removeTags ts => applyRemoveTags b l ts
+
+/-- the single calls a change list makes, in order -/
+inductive Prim where
+  | feat (f : Feature)
+  | tag (id : Id) (t : Tag)
+  | untag (id : Id) (k : Key)
+deriving Repr
+
+def Change.prims : Change → List Prim
+  | .addFeatures fs => fs.map .feat
+  | .addTags ts => ts.map fun e => .tag e.1 e.2
+  | .removeTags ts => ts.map fun e => .untag e.1 e.2
+
+def Prim.apply (b : View) (o : Oracle) (l : Layer) : Prim → Layer × Option Err
+  | .feat f => l.addFeature b o f
+  | .tag id t => match l.addTag b id t with
+    | .ok l' => (l', none)
+    | .error e => (l, some e)
+  | .untag id k => match l.removeTag b id k with
+    | .ok l' => (l', none)
+    | .error e => (l, some e)
+
+/-- a change list as the sequence of its calls, stopping at the first one that fails -/
+def applyPrims (b : View) (o : Oracle) : Layer → List Prim → Layer × Option Err
+  | l, [] => (l, none)
+  | l, p :: r =>
+    match p.apply b o l with
+    | (l', none) => applyPrims b o l' r
+    | (l', some e) => (l', some e)
+
+/-- do two `FindReferences` answers name the same features? -/
+def sameRefs (a b : List Id) : Bool := a.all (fun x => b.contains x) && b.all (fun x => a.contains x)
+
+/-- run the calls of a change list on the canary (`c` over `v0`) and on the world (`l` over `b`) in lock
+step and check, before every `AddFeature`, that both worlds' `FindReferences` of the feature name the
+same referrers — the executable hypothesis of `canary_faithful_of_refs` (C13); it is what C15's
+`overlay_find_refs_spec` states for each of the two worlds -/
+def lockstepRefs (v0 b : View) (o : Oracle) : Layer → Layer → List Prim → Bool
+  | _, _, [] => true
+  | c, l, p :: r =>
+    (match p with
+     | .feat f => sameRefs ((c.view v0 (c.loc v0)).refs f.id) ((l.view b (l.loc b)).refs f.id)
+     | _ => true) &&
+    (match p.apply v0 o c, p.apply b o l with
+     | (c', none), (l', none) => lockstepRefs v0 b o c' l' r
+     | _, _ => true)
+
+/-- the hypothesis for a merged change on world `l` over `b` -/
+def canaryRefsAgree (b : View) (o : Oracle) (l : Layer) (cs : List Change) : Bool :=
+  lockstepRefs (l.view b (l.loc b)) b o Layer.empty l (cs.flatMap Change.prims)
 
 def applyAll (b : View) (o : Oracle) : Layer → List Change → Layer × Option Err
   | l, [] => (l, none)
